@@ -6,6 +6,7 @@ import (
 	"encoding/json"
 	"fmt"
 	"math/rand"
+	"sync"
 	"sync/atomic"
 	"testing/synctest"
 	"time"
@@ -26,12 +27,14 @@ import (
 func init() { engines["sclose"] = scloseEngine }
 
 type sstream struct {
-	id       uint64
-	st       rpc.Stream
-	blocked  int32 // reader goroutine is in its final, blocking ReadMessage
-	readErr  error
-	returned int32
-	reads    int
+	id                   uint64
+	st                   rpc.Stream
+	blocked              int32 // reader goroutine is in its final, blocking ReadMessage
+	readErr              error
+	returned             int32
+	nreads               int32
+	mu                   sync.Mutex
+	readers, readersDone int32
 }
 
 func runSClose(seed int64, idx int) *scen.Outcome {
@@ -69,7 +72,14 @@ func runSClose(seed int64, idx int) *scen.Outcome {
 		s := &sstream{id: uint64(idx)<<16 | uint64(i+1)}
 		streams[i] = s
 		push := rng.Intn(2)
-		st, err := conn.NewStream(svc.StreamMethod(push, codec))
+		method := svc.StreamMethod(push, codec)
+		fan := rng.Intn(4) == 0
+		if fan {
+			// a handler that reads its stream from two goroutines
+			push = 0
+			method = "F2.S" + svc.Prefix(codec)
+		}
+		st, err := conn.NewStream(method)
 		if err != nil {
 			bad("C10/sclose/open-failed", "NewStream failed on a healthy connection: "+err.Error())
 			return out
@@ -91,19 +101,29 @@ func runSClose(seed int64, idx int) *scen.Outcome {
 			bad("C10/sclose/setup", "first answer failed: "+err.Error())
 			return out
 		}
-		go func() {
-			atomic.StoreInt32(&s.blocked, 1)
-			b := svc.NewBox(codec)
-			for {
-				err := st.ReadMessage(nil, b.Ptr())
-				if err != nil {
-					s.readErr = err
-					break
+		readers := 1 + rng.Intn(2) // sometimes two consumers on the client end
+		s.readers = int32(readers)
+		for k := 0; k < readers; k++ {
+			go func() {
+				atomic.StoreInt32(&s.blocked, 1)
+				b := svc.NewBox(codec)
+				for {
+					err := st.ReadMessage(nil, b.Ptr())
+					if err != nil {
+						s.mu.Lock()
+						if s.readErr == nil || err != rpc.ErrStreamShutdown {
+							s.readErr = err
+						}
+						s.mu.Unlock()
+						break
+					}
+					atomic.AddInt32(&s.nreads, 1)
 				}
-				s.reads++
-			}
-			atomic.StoreInt32(&s.returned, 1)
-		}()
+				if atomic.AddInt32(&s.readersDone, 1) == s.readers {
+					atomic.StoreInt32(&s.returned, 1)
+				}
+			}()
+		}
 	}
 	synctest.Wait()
 	// messages in flight at the moment of the event
@@ -178,7 +198,7 @@ func runSClose(seed int64, idx int) *scen.Outcome {
 			continue
 		}
 		if atomic.LoadInt32(&s.returned) == 0 {
-			bad("C10/sclose/client-read-blocked/"+event, fmt.Sprintf("the client's ReadMessage on stream %d is still blocked at quiescence after %s", i, event))
+			bad("C10/sclose/client-read-blocked/"+event, fmt.Sprintf("%d of the %d client-side ReadMessage calls on stream %d are still blocked at quiescence after %s", s.readers-atomic.LoadInt32(&s.readersDone), s.readers, i, event))
 		} else if s.readErr != rpc.ErrStreamShutdown {
 			bad("C10/sclose/client-read-error/"+event, fmt.Sprintf("the client's blocked ReadMessage on stream %d returned %v after %s, expected ErrStreamShutdown", i, s.readErr, event))
 		}
@@ -211,14 +231,14 @@ func runSClose(seed int64, idx int) *scen.Outcome {
 				bad("C10/sclose/sibling-disturbed", fmt.Sprintf("closing stream %d made the blocked reader of sibling stream %d return %v", victim, i, s.readErr))
 				continue
 			}
-			before := s.reads
+			before := atomic.LoadInt32(&s.nreads)
 			box := svc.NewBox(codec)
 			box.Set(svc.StreamMsg(s.id, svc.DirUp, 5, svc.KindEcho, 0, 80))
 			if err := s.st.WriteMessage(box.Ptr()); err != nil {
 				bad("C10/sclose/sibling-write", fmt.Sprintf("after closing stream %d, WriteMessage on sibling %d failed: %v", victim, i, err))
 			}
-			env.Settle(func() bool { return s.reads > before }, time.Minute)
-			if s.reads <= before {
+			env.Settle(func() bool { return atomic.LoadInt32(&s.nreads) > before }, time.Minute)
+			if atomic.LoadInt32(&s.nreads) <= before {
 				bad("C10/sclose/sibling-no-answer", fmt.Sprintf("after closing stream %d, sibling %d got no answer to an echo", victim, i))
 			}
 		}
